@@ -94,7 +94,24 @@ func suiteC20(c *ctx) {
 		rl := reqLen(u, p)
 		rep := replyBytes(r)
 		var script string
-		switch k := r.Intn(17); {
+		switch k := r.Intn(18); {
+		case k == 17:
+			// values of the timeout option that must be ignored (out of the range of an int, not positive)
+			// or are small: the call stays bounded whatever the server does
+			tv := []string{"timeout=2147483648", "timeout=3000000000", "timeout=4294967295", "timeout=4294967297", "timeout=9223372036854775807",
+				"timeout=-5", "timeout=0", "timeout=2x", "timeout=1.5", "timeout=", "timeout=00000000000000000000001"}[r.Intn(11)]
+			opts = tv
+			if r.Bool() {
+				opts = "debug," + tv
+			}
+			switch r.Intn(3) {
+			case 0:
+				script = fmt.Sprintf("R%d;S1500;C", rl) // silence, then close
+			case 1:
+				script = fmt.Sprintf("R%d;W%x;C", rl, rep)
+			default:
+				script = "S1500;C"
+			}
 		case k == 16:
 			// printf directives in every datum the module may log (the reply text with `debug`, the user
 			// name on success, an unknown module argument): logged data is data, never a format
